@@ -15,12 +15,12 @@ EXPLANATION = (
     'infer: sigFromPy on value shapes with symbolic leaves must return the reference inference, a single '
     'complete type, and marshal("v")/unmarshal("v") must return an equal value.')
 BOUNDS = {
-    'quick': 'split: every valid signature of length 1..5 (symbolic string, one obligation per length and '
-             'first character class); infer: 60 value shapes, nesting <= 2, symbolic leaves',
+    'quick': 'split: every valid signature of length 1..5, and those of length 6 whose first two characters are both container codes (symbolic string, '
+             'one obligation per length and class of the first 1-2 characters); infer: 60 value shapes, nesting <= 2, symbolic leaves',
     'thorough': 'split: every valid signature of length 1..7; infer: same shapes x 2 byte orders x 4 offsets',
 }
 ASSUMPTIONS = [
-    'signatures longer than 5 (quick) / 7 (thorough) characters are outside the claim',
+    'signatures longer than 5-6 (quick) / 7 (thorough) characters are outside the claim',
     'plain Python ints are constrained to int32 (the documented generic type is "i")',
     'containers whose elements share a Python class but not a DBus type are outside the claim (statement)',
     'floats are concrete (pool without nan: the statement uses Python equality)',
@@ -233,15 +233,34 @@ def peq(a, b):
 
 def obligations(tier):
     obs = []
-    maxlen = 5 if tier == 'quick' else 7
+    maxlen = 6 if tier == 'quick' else 7
+    CLS = ['a', '(', ')', '{', '}', 'o']       # 'o' = any other character
+    import itertools
     for n in range(1, maxlen + 1):
-        for fc in FIRST:
-            if (n == 1 and fc in ('a', '(')) or (n == 2 and fc == '('):
-                continue        # no valid signature of that form exists
-            to = 120 if n <= 5 else 900
-            obs.append(Ob('split:len%d:first=%s' % (n, fc or 'basic'), 'split', {'n': n, 'first': fc},
-                          timeout=to, path_timeout=30, twin=True, functions=FUNCS[:1] + FUNCS[4:],
-                          bounds='signature: symbolic string of length %d' % n))
+        depth = 1 if n <= 5 else (2 if n == 6 else 3)
+        for pre in itertools.product(CLS, repeat=min(depth, n)):
+            if pre[0] in (')', '{', '}'):
+                continue                        # no valid signature starts like that
+            if n == 1 and pre[0] in ('a', '('):
+                continue
+            if n == 2 and pre[0] == '(':
+                continue
+            if len(pre) >= 2 and pre[0] == '(' and pre[1] == ')':
+                continue                        # empty struct: never valid
+            if len(pre) >= 2 and pre[1] == '{' and pre[0] != 'a':
+                continue                        # dict entry only directly after 'a'
+            if len(pre) >= 2 and pre[1] == '}':
+                continue
+            if len(pre) >= 2 and pre[1] == ')' and pre[0] != 'o':
+                continue
+            if len(pre) >= 2 and pre[0] == 'o' and pre[1] == ')':
+                continue                        # unbalanced
+            if tier == 'quick' and n == 6 and 'o' in pre:
+                continue                        # quick: length 6 only for container-heavy prefixes (aa, a(, a{, (a, (()
+            to = 120 if n <= 4 else (400 if n == 5 else 900)
+            obs.append(Ob('split:len%d:%s' % (n, ''.join(pre)), 'split', {'n': n, 'pre': list(pre)},
+                          timeout=to, path_timeout=30, twin=(n <= 5), functions=FUNCS[:1] + FUNCS[4:],
+                          bounds='signature: symbolic string of length %d (first %d characters by class)' % (n, len(pre))))
     combos = [(0, True)] if tier == 'quick' else [(o, le) for o in (0, 1, 4, 7) for le in (True, False)]
     for i, sh in enumerate(VSHAPES):
         if not in_claim(sh):
@@ -256,15 +275,16 @@ def obligations(tier):
 def build(family, p):
     from txdbus import marshal, interface
     if family == 'split':
-        n, first = p['n'], p['first']
+        n, pre = p['n'], p['pre']
 
         def h(s):
             assume(len(s) == n)
-            c0 = s[0]
-            if first is None:
-                assume(c0 != 'a' and c0 != '(' and c0 != 'v')
-            else:
-                assume(c0 == first)
+            for i, cl in enumerate(pre):
+                ch = s[i]
+                if cl == 'o':
+                    assume(ch != 'a' and ch != '(' and ch != ')' and ch != '{' and ch != '}')
+                else:
+                    assume(ch == cl)
             try:
                 exp = split(s)
             except SigError:
@@ -283,9 +303,11 @@ def build(family, p):
         wit = []
         pool = {1: ['i', 'v', 'h'], 2: ['ai', 'ii', 'vs', 'av'], 3: ['(i)', 'aai', 'a(i', 'vvv', 'ybn'],
                 4: ['(ii)', 'a(i)', 'aaai', 'iiii', 'va{s'], 5: ['a{sv}', '(i(i)', '(iii)', 'aa(i)', 'vaaay'],
-                6: ['a{s(i', '((ii))', 'a(i)ai', 'iiiiii', 'va{sv}'], 7: ['a{s(i)}', '(i(ii))', 'aa{sv}i', 'vi(i)ai']}
+                6: ['a{s(i', '((ii))', 'a(i)ai', 'iiiiii', 'va{sv}', 'aa(i)i', 'a{sv}i', '(ii)ai', 'ia{sv}'], 7: ['a{s(i)}', '(i(ii))', 'aa{sv}i', 'vi(i)ai']}
+        def cls_of(ch):
+            return ch if ch in 'a(){}' else 'o'
         for w in pool.get(n, []):
-            if len(w) == n and is_valid(w) and ((first is None and w[0] not in 'a(v') or w[0] == first):
+            if len(w) == n and is_valid(w) and all(cls_of(w[i]) == pre[i] for i in range(len(pre))):
                 wit.append((w,))
         return Spec(h, [('s', str)], witnesses=wit)
 
